@@ -1196,7 +1196,8 @@ func errBody(content string, n int, fam string) (b []byte, ok bool) {
 			}
 		}
 		return b, true
-	case fmt.Sscanf(content, "utf8-w%ds%d", &w, &sh) == 2:
+	case strings.HasPrefix(content, "utf8-w"):
+		fmt.Sscanf(content, "utf8-w%ds%d", &w, &sh)
 		if n <= sh {
 			return nil, false
 		}
@@ -1228,6 +1229,22 @@ func errBody(content string, n int, fam string) (b []byte, ok bool) {
 		return []byte(head + "<!--" + strings.Repeat("x", n-min-7) + "-->" + tail), true
 	}
 	return nil, false
+}
+
+// errBodyClass is the coarse body class used in panic keys (one defect, one
+// key per method).
+func errBodyClass(content string) string {
+	switch {
+	case content == "x80-run" || content == "xbf-run" || content == "cont-after-space":
+		return "invalid UTF-8, continuation bytes only"
+	case content == "xff-run" || content == "xc0x80" || content == "lead-at-cut":
+		return "invalid UTF-8, stray lead or illegal bytes"
+	case strings.HasPrefix(content, "utf8-"):
+		return "multi-byte UTF-8 text"
+	case strings.HasPrefix(content, "daverr-"):
+		return "DAV:error document"
+	}
+	return "ASCII, white space or NULs"
 }
 
 func (g *gen) errorBodies() {
@@ -1278,7 +1295,7 @@ func (g *gen) errorBodies() {
 							cs.Exp.Cond = "{" + sp + "}" + lo
 						}
 						cs.Class = "http " + failClass(status)
-						cs.Family = "error body: " + content
+						cs.Family = "error body: " + errBodyClass(content)
 						cs.DKey = fmt.Sprintf("%s|http %s|errbody %s|len=%d|ct=%d", m.Name, failClass(status), content, n, ti)
 						g.c.Observe("error_bodies", fmt.Sprintf("%s, %d bytes", content, n), 1)
 						runCase(g.c, cs)
